@@ -34,7 +34,7 @@ UNIVERSES = {
     "thorough": [("lists", 2), ("lists3", 3), ("nested", 1), ("objects", 2), ("strings", 2)],
 }
 
-C02_CLAUSES = ("Completes", "RoundTrip", "PyPatch", "PyPatchIsSpecPatch", "EmptyOnlyIfSame")
+C02_CLAUSES = ("Completes", "RoundTrip", "PyPatch", "PyPatchIsSpecPatch", "RepeatPatch", "DiffUnchangedByPatch", "EmptyOnlyIfSame")
 
 
 def run_models(tier, chk=None, universes=None):
